@@ -130,10 +130,25 @@ func (i *interpreter) checkGlobal(g *ssa.Global) {
 	if g.Pkg == nil || i.inited[g.Pkg] || i.P.allowInit(g.Pkg) {
 		return
 	}
-	if globalAllow[g.Pkg.Pkg.Path()+"."+g.Name()] {
+	name := g.Pkg.Pkg.Path() + "." + g.Name()
+	if globalAllow[name] {
+		return
+	}
+	if f, ok := lazyGlobals[name]; ok {
+		if !i.lazyDone[name] {
+			i.lazyDone[name] = true
+			*i.globals[g] = f(i)
+		}
 		return
 	}
 	unsup("read of global %s.%s of a package whose initialiser is not run", g.Pkg.Pkg.Path(), g.Name())
+}
+
+// lazyGlobals: globals of packages whose initialiser is not run, initialised on first read.
+var lazyGlobals = map[string]func(i *interpreter) value{}
+
+func init() {
+	lazyGlobals["github.com/tendermint/iavl.ErrVersionDoesNotExist"] = func(i *interpreter) value { return i.mkError("version does not exist") }
 }
 
 var globalAllow = map[string]bool{
@@ -152,6 +167,8 @@ func (p *Program) newInterp(m *Machine) *interpreter {
 		P:          p,
 		inited:     map[*ssa.Package]bool{},
 		onceDone:   map[*value]bool{},
+		lazyDone:   map[string]bool{},
+		digests:    map[*value][]value{},
 		regexps:    map[*value]*regexp.Regexp{},
 	}
 	runtimePkg := p.Prog.ImportedPackage("runtime")
